@@ -49,6 +49,10 @@ def scenarios(tier):
                      visible=VIS, forced={"x": 2}), 1 if q else 2))
     L.append((SC.scn("S10-two-forced-redo-x-first-build", w["one"], ["redo --no-log x", "redo --no-log x"], visible=VIS,
                      forced={"x": 2}), 1 if q else 2))
+    # somebody sends SIGTERM to the shell of ONE script (x) of a -j2 build; the redo that runs it records that failure and
+    # must go on looking after its other job (y), whose lock it holds, while a second invocation wants y
+    L.append((SC.scn("S11-one-script-gets-sigterm-j2", w["two"], ["redo --no-log -j2 x y", "redo-ifchange y"], visible=VIS,
+                     term_scripts=["x"], may_fail=True), 1 if q else 2))
     if not q:
         L.append((SC.scn("S6b-tree-kill-shared-dep", w["shared"], ["redo-ifchange t1", "redo-ifchange t2"],
                          visible=VIS, kill_roots=["T0"], expect_ok=["T1"]), 2))
